@@ -206,10 +206,20 @@ func (eng *Engine) lookupFunc(p *packages.Package, name string) (*funcInfo, erro
 	resolveScope := func(q string) (*types.Scope, *types.Package, string, error) {
 		if i := strings.Index(q, "."); i >= 0 {
 			pn := q[:i]
+			var first *types.Package
 			for _, imp := range p.Types.Imports() {
 				if imp.Name() == pn || imp.Path() == pn {
-					return imp.Scope(), imp, q[i+1:], nil
+					// several imports may share a name (errors / github.com/pkg/errors): take the one that has the symbol
+					if imp.Scope().Lookup(q[i+1:]) != nil {
+						return imp.Scope(), imp, q[i+1:], nil
+					}
+					if first == nil {
+						first = imp
+					}
 				}
+			}
+			if first != nil {
+				return first.Scope(), first, q[i+1:], nil
 			}
 			return nil, nil, "", fmt.Errorf("package %q is not imported by %s", pn, p.PkgPath)
 		}
